@@ -244,6 +244,8 @@ func fnIn() int { return 5 }
 // ownPath: does the schema have a nil path the engine model does not speak about (such cases would be judged by the
 // specification only)? None any more: discriminated union and lazy follow the engine's order since a69d756 / bc2d4fc, and
 // Record's pointer variants convert between T and *T since f5847cc — every row is compared with the engine model.
+// The token stays in the line format; the Lean driver REFUSES a line that says 1 (round 4c: its former "echo the
+// implementation" branch is deleted), so returning true here shows as a broken tie, not as model = impl.
 func ownPath(e *entry, h []string) bool { return false }
 
 var opNames = []string{"Optional", "Nilable", "Nullish", "NonOptional", "Default:v", "Default:i", "DefaultFunc:v", "DefaultFunc:i",
